@@ -19,6 +19,7 @@ RULES = [
     ('C15-lifo', 'the work stack is consumed with a bare .pop(); every multi-element push is wrapped in reversed'),
     ('C15-dedup-leaves', 'the identity test id(x) in visited is dominated by an isinstance test for '
                          'ParsedObject/list/tuple/dict'),
+    ('C15-dedup-identity', 'the visited set holds id(node) values and is queried with id(node)'),
     ('C15-dedup', 'a node that passes the identity test is recorded; parsed objects are yielded only after it'),
     ('C15-visit-yield', 'visit yields exactly the popped node, once, only if it is a ParsedObject'),
     ('C15-children', 'children pushed are exactly elements / dict values / getattr(node, f) for f in _fields'),
